@@ -133,7 +133,8 @@ taskreport {report_id} "{report_id}" {{
     try:
         with os.fdopen(temp_fd, "w") as f:
             # Include original file
-            f.write(f"# Original file: {tjp_path}\n")
+            # (repr: a file name may contain a line break, which would end the comment)
+            f.write(f"# Original file: {str(tjp_path)!r}\n")
             f.write("# Auto-report added by plan CLI\n\n")
             f.write(original_content)
             f.write("\n\n")
